@@ -17,7 +17,8 @@ RULE = ('case = (1..3 producers with 0..4 elements and distinct return values, b
         'non-preemptive) is generated data executed by the deterministic scheduler vlib/dsched.py at every synchronisation '
         'operation; oracle = history invariant: multiset received == produced, per (consumer, producer) order, every consumer ends '
         'with StopIteration carrying all return values, all producers return, no deadlock; non-trivial = >= 2 threads on the queue, '
-        '>= 1 preemption and a blocked wait on full or empty; distinct = distinct canonical case JSON (schedule included)')
+        '>= 1 preemption and a blocked wait on full or empty; distinct = distinct canonical case JSON (schedule included)'
+        '; also: producer return values of many kinds (falsy scalars, tuple/list/dict/ndarray as one value), streams of 257..300 elements')
 ASSUMPTIONS = [
     'shimmed primitives implement the documented stdlib semantics (mutual exclusion, Condition.wait releases and re-acquires, '
     'notify wakes only threads already waiting, no spurious wake-ups, Queue capacity); self-tested in tools/selftest_dsched.py',
